@@ -335,3 +335,135 @@ func (p *Program) whyMayWrite(fn *ssa.Function, key string) string {
 	}
 	return out
 }
+
+// mayAcquire: may a call of fn (transitively; goroutines it starts excluded) lock the mutex field
+// key = "<pkgpath>.<Struct>.<field>"? Seeds are the functions that call Lock/RLock on that field.
+var lockAcq struct {
+	built bool
+	seeds map[string]map[*ssa.Function]bool
+	reach map[string]map[*ssa.Function]bool
+}
+
+func (p *Program) mayAcquire(fn *ssa.Function, key string) bool {
+	if fn == nil {
+		return true
+	}
+	pkgReach.mu.Lock()
+	defer pkgReach.mu.Unlock()
+	if pkgReach.cg == nil {
+		pkgReach.cg = vta.CallGraph(ssautil.AllFunctions(p.Prog), cha.CallGraph(p.Prog))
+		pkgReach.sets = map[string]map[*ssa.Function]bool{}
+	}
+	la := &lockAcq
+	if !la.built {
+		la.seeds = map[string]map[*ssa.Function]bool{}
+		la.reach = map[string]map[*ssa.Function]bool{}
+		for f := range ssautil.AllFunctions(p.Prog) {
+			for _, b := range f.Blocks {
+				for _, in := range b.Instrs {
+					c, ok := in.(*ssa.Call)
+					if !ok {
+						continue
+					}
+					sc := c.Call.StaticCallee()
+					if sc == nil || sc.Pkg == nil || sc.Pkg.Pkg.Path() != "sync" || (sc.Name() != "Lock" && sc.Name() != "RLock") || len(c.Call.Args) == 0 {
+						continue
+					}
+					fa, ok := c.Call.Args[0].(*ssa.FieldAddr)
+					if !ok {
+						continue
+					}
+					pt, ok := fa.X.Type().Underlying().(*types.Pointer)
+					if !ok {
+						continue
+					}
+					nt, ok := types.Unalias(pt.Elem()).(*types.Named)
+					if !ok || nt.Obj().Pkg() == nil {
+						continue
+					}
+					stt, ok := nt.Underlying().(*types.Struct)
+					if !ok {
+						continue
+					}
+					k := nt.Obj().Pkg().Path() + "." + nt.Obj().Name() + "." + stt.Field(fa.Field).Name()
+					if la.seeds[k] == nil {
+						la.seeds[k] = map[*ssa.Function]bool{}
+					}
+					la.seeds[k][f] = true
+				}
+			}
+		}
+		la.built = true
+	}
+	r, ok := la.reach[key]
+	if !ok {
+		// backward closure over call edges that run in the caller's goroutine
+		r = map[*ssa.Function]bool{}
+		var work []*callgraph.Node
+		for f := range la.seeds[key] {
+			if n := pkgReach.cg.Nodes[f]; n != nil {
+				r[f] = true
+				work = append(work, n)
+			}
+		}
+		for len(work) > 0 {
+			n := work[len(work)-1]
+			work = work[:len(work)-1]
+			for _, e := range n.In {
+				if _, isGo := e.Site.(*ssa.Go); isGo {
+					continue
+				}
+				if e.Site != nil {
+					// a call of a function value the caller received (parameter or captured variable) is
+					// charged to the call site that supplies the function, not to every user of the callee
+					if cc := e.Site.Common(); !cc.IsInvoke() && cc.StaticCallee() == nil && derivesFromParam(cc.Value, 0) {
+						continue
+					}
+				}
+				c := e.Caller
+				if c.Func != nil && !r[c.Func] {
+					r[c.Func] = true
+					work = append(work, c)
+				}
+			}
+		}
+		la.reach[key] = r
+	}
+	return r[fn]
+}
+
+// derivesFromParam: the function value was handed to the enclosing function (parameter, captured
+// variable, or a local cell that only ever holds one of those).
+func derivesFromParam(v ssa.Value, depth int) bool {
+	if depth > 4 {
+		return false
+	}
+	switch x := v.(type) {
+	case *ssa.Parameter, *ssa.FreeVar:
+		return true
+	case *ssa.UnOp:
+		if x.Op != token.MUL {
+			return false
+		}
+		switch a := x.X.(type) {
+		case *ssa.FreeVar:
+			return true
+		case *ssa.Alloc:
+			rs := a.Referrers()
+			if rs == nil {
+				return false
+			}
+			n := 0
+			for _, r := range *rs {
+				if st, ok := r.(*ssa.Store); ok && st.Addr == a {
+					n++
+					if !derivesFromParam(st.Val, depth+1) {
+						return false
+					}
+				}
+			}
+			return n > 0
+		}
+	}
+	return false
+}
